@@ -611,8 +611,13 @@ func c19Worker(tier string, shard, n int) hWorkerOut {
 	// the second trusted certificate carries the subject of the first (the re-keyed CA): two certificates all the same
 	env.caPEM2 = WritePEM(env.files, "rekeyed-ca.pem", p.Sibling.Cert)
 	env.crlFile = filepath.Join(env.files, "list.crl")
-	env.crlFile2 = filepath.Join(env.files, "list2.crl")
-	os.WriteFile(env.crlFile2, world.SimpleCRL(p.CA, 2, 702).DER(), 0644)
+	// the second configured crl_file is given relative to the working directory of the server and its name starts like
+	// a URL scheme does (what makes a crl_file a file is the option it is configured with, not how it is spelt)
+	if err := os.Chdir(env.files); err != nil {
+		panic(err)
+	}
+	env.crlFile2 = "http-clients-ca.crl"
+	os.WriteFile(filepath.Join(env.files, env.crlFile2), world.SimpleCRL(p.CA, 2, 702).DER(), 0644)
 	env.missing = filepath.Join(env.files, "does-not-exist")
 	good := world.SimpleCRL(p.CA, 1, 701).DER()
 	// the first configured crl_file is a symbolic link (how deployments publish the current list): the validator keeps
